@@ -71,6 +71,14 @@ CHECKS = {
             'parameter must carry exactly one sync watcher of the target iff a live link depends on it.',
             'explicit-state BFS over operation histories of the real code vs. a reference model of live links',
             BASE_NOTE),
+    'C13': ('model_checking', 'DESIGN.md §3 C13',
+            'BFS over class-level assignments at every level of A->B->C / A->B2, add_parameter of a new and of an existing name at every level, '
+            'cache-filling namespace reads, instance creation, instance assignment and instance namespace access; in every reached state, for every '
+            'class and instance: the names in .param equal the Parameters Python attribute lookup finds, .param[n] is that very object, its default equals '
+            'the class attribute, values()/repr/serialization agree with getattr; then a probe (watch + set on each instance, a fresh instance of every class, '
+            'use of an added parameter).',
+            'explicit-state BFS with an invariant over all classes and instances (no reference model other than Python attribute lookup)',
+            BASE_NOTE),
     'C15': ('exploration', 'DESIGN.md §3 C15',
             'For 18 serializable parameter types a boundary-rich value list (extreme ints/floats, -0.0, escape-laden and non-ASCII strings, empty '
             'containers, microseconds, years 1/999/9999, date-only and datetime ranges, None) x class/instance level x {all, subset=, '
